@@ -75,7 +75,7 @@ def run_tlc(module, cfg, workers=4, timeout=1800, tag=None, dfs=False, xmx=None,
     tag = tag or (module + "-" + os.path.basename(cfg))
     jopts = "-Xss1g"
     if dfs:
-        jopts += " -XX:+UseSerialGC -Dtlc2.tool.queue.IStateQueue=StateDeque"
+        jopts += " -XX:ParallelGCThreads=2 -Dtlc2.tool.queue.IStateQueue=StateDeque"
     if xmx:
         jopts += " -Xmx" + xmx
     env = {"JAVA_TOOL_OPTIONS": jopts}
@@ -141,7 +141,7 @@ def tlc_gen(module, cfg, outfile, workers=1, timeout=1800, simulate=None, limit=
             "transitions": r["generated"], "wall_s": round(r["wall"], 1)}
 
 
-UNMATCHED_RE = re.compile(r'<<"UNMATCHED", (\d+), ')
+UNMATCHED_RE = re.compile(r'<<\s*"UNMATCHED",\s*(\d+),')
 
 
 def split_runs(path):
